@@ -271,14 +271,21 @@ func (r *Runner) c06after(op *OpSpec, st *Step, sd *model.StructDef, m *message,
 	if len(in) > 0 {
 		s.inputs = append(s.inputs, [2]uintptr{ptrOf(in), uintptr(len(in))})
 	}
-	if res.Cls != "ok" {
+	if res.Cls == "panic" {
 		return
 	}
 	s.decoded++
 	o := &liveObj{id: s.next, typ: op.Type, obj: dst, input: in, desc: "#" + strconv.Itoa(s.next) + " " + op.Type + " decoded at slot " + strconv.Itoa(st.Slot) + " from " + strconv.Itoa(len(in)) + " bytes"}
 	s.next++
 	o.snap = model.Digest(model.CanonValue(dst.Elem()))
-	model.Extents(r.C, sd, m.w, dst.Elem(), op.Type, &o.extents)
+	if res.Cls == "ok" {
+		model.Extents(r.C, sd, m.w, dst.Elem(), op.Type, &o.extents)
+	} else {
+		// a decode that failed midway: what it stored before failing must stay as it is (snapshot only; the wire
+		// tree no longer describes the object, so its extents are not walked)
+		o.desc += " (decode failed: " + res.Err + ")"
+		o.hasNC = hasNoCopy(r.C, sd)
+	}
 	for _, e := range o.extents {
 		if e.NoCopy {
 			o.hasNC = true
@@ -348,6 +355,17 @@ func (r *Runner) c06sweep(st *Step, after string) {
 			break
 		}
 	}
+}
+
+func hasNoCopy(c *model.Corpus, sd *model.StructDef) bool {
+	for _, s := range Related(c, sd) {
+		for _, f := range s.Fields {
+			if f.NoCopy {
+				return true
+			}
+		}
+	}
+	return false
 }
 
 func (r *Runner) c06scribble(st *Step) {
@@ -514,7 +532,10 @@ func (r *Runner) prepareShared() {
 		so := &sharedObj{op: op}
 		if op.Kind == "dec" {
 			so.msg = r.buildMessage(op)
-			so.input = newGuarded(len(so.msg.bytes)).place(so.msg.bytes)
+			// on the Go heap, not in a guarded mapping: the race detector only shadows Go-managed memory, and what
+			// this world wants to see is a write by the decoder to a buffer another task is reading
+			so.input = make([]byte, len(so.msg.bytes))
+			copy(so.input, so.msg.bytes)
 		} else {
 			so.val = r.buildValue(op)
 			so.snap = model.Digest(model.CanonValue(so.val.ptr.Elem()))
